@@ -314,11 +314,63 @@ type caseT struct {
 	Status int    `json:"status"`
 	Form   string `json:"form"` // resp | err
 	Shape  int    `json:"shape"`
-	Proto  string `json:"proto"` // http | grpc | equiv
+	Proto  string `json:"proto"` // http | grpc | equiv | idpath
+	Path   string `json:"path,omitempty"` // idpath: the request path as sent
+	Want   string `json:"want,omitempty"` // idpath: the id the kernel must receive
 }
 
 func (c caseT) key() string {
+	if c.Proto == "idpath" {
+		return fmt.Sprintf("idpath:%s:%s", c.Ep, c.Path)
+	}
 	return fmt.Sprintf("%s:%s:%d:%s:%d", c.Proto, c.Ep, c.Status, c.Form, c.Shape)
+}
+
+// ids with characters that URL handling likes to normalise, and the ways a client may legally spell them in a path
+var pathIds = []string{"p/1", "x+y/z", "q+r", "a b", "p%q", "a%2Fb", "é/ü", "a:b;c", "~.-_", "a+b c", "x/y+z/w", "Ab"}
+
+func pathSpellings(id string) []string {
+	hexOf := func(b byte, upper bool) string {
+		if upper {
+			return fmt.Sprintf("%%%02X", b)
+		}
+		return fmt.Sprintf("%%%02x", b)
+	}
+	unreserved := func(b byte) bool {
+		return b >= 'a' && b <= 'z' || b >= 'A' && b <= 'Z' || b >= '0' && b <= '9' || strings.IndexByte("-._~", b) >= 0
+	}
+	var canon, lower, over, slash strings.Builder
+	for i := 0; i < len(id); i++ {
+		b := id[i]
+		switch {
+		case unreserved(b) || b == '+' || b == ':' || b == ';':
+			canon.WriteByte(b)
+			lower.WriteByte(b)
+			slash.WriteByte(b)
+		case b == '/':
+			canon.WriteByte(b)
+			lower.WriteByte(b)
+			slash.WriteString("%2F") // an encoded slash
+		default:
+			canon.WriteString(hexOf(b, true))
+			lower.WriteString(hexOf(b, false)) // lower-case hex digits
+			slash.WriteString(hexOf(b, true))
+		}
+		if b == '+' || b == '/' {
+			over.WriteByte(b)
+		} else {
+			over.WriteString(hexOf(b, true)) // every other byte percent-encoded, needed or not
+		}
+	}
+	seen := map[string]bool{}
+	var out []string
+	for _, x := range []string{canon.String(), lower.String(), over.String(), slash.String()} {
+		if !seen[x] {
+			seen[x] = true
+			out = append(out, x)
+		}
+	}
+	return out
 }
 
 func allStatuses(factsPath string) []int {
@@ -350,10 +402,9 @@ func enumerate(statuses []int) []caseT {
 				forms = []string{"resp", "err"}
 			}
 			for _, f := range forms {
+				// for errors the shape is the cause: 0 = wrapped cause (store / router / echo failures),
+				// 1 = no cause (queue-full and shutting-down errors are created with a nil cause)
 				shapes := []int{0, 1}
-				if f == "err" {
-					shapes = []int{0}
-				}
 				for _, sh := range shapes {
 					for _, p := range []string{"http", "grpc"} {
 						cs = append(cs, caseT{Ep: ep.name, Status: s, Form: f, Shape: sh, Proto: p})
@@ -362,6 +413,14 @@ func enumerate(statuses []int) []caseT {
 			}
 		}
 		cs = append(cs, caseT{Ep: ep.name, Proto: "equiv"})
+	}
+	// ids in URL paths reach the kernel exactly as the client spelled them (percent-decoding only)
+	for _, t := range [][2]string{{"ReadPromise", "/promises/"}, {"ResolvePromise", "/promises/"}, {"ReadSchedule", "/schedules/"}, {"DeleteSchedule", "/schedules/"}} {
+		for _, id := range pathIds {
+			for _, sp := range pathSpellings(id) {
+				cs = append(cs, caseT{Ep: t[0], Proto: "idpath", Path: t[1] + sp, Want: id})
+			}
+		}
 	}
 	for i := range cs {
 		cs[i].Idx = i
@@ -432,7 +491,21 @@ func child(from, to int, factsPath string) {
 		out.Flush()
 		e := eps[c.Ep]
 		problem := ""
-		if c.Proto == "equiv" {
+		if c.Proto == "idpath" {
+			stub.next = func(r *t_api.Request) (*t_api.Response, error) { return mkResponse(r.Kind, t_api.StatusOK, 1), nil }
+			stub.captured = nil
+			e2 := e
+			e2.path = c.Path
+			_, _, herr := doHTTP(e2)
+			if hreq := stub.captured; herr != nil || hreq == nil {
+				problem = fmt.Sprintf("http request %s did not reach the kernel: %v", c.Path, herr)
+			} else {
+				cm, _ := canon.Req(hreq)["c"].(map[string]any)
+				if got := fmt.Sprint(cm["id"]); got != c.Want {
+					problem = fmt.Sprintf("path %s: the kernel received id %q, the client addressed %q", c.Path, got, c.Want)
+				}
+			}
+		} else if c.Proto == "equiv" {
 			stub.next = func(r *t_api.Request) (*t_api.Response, error) { return mkResponse(r.Kind, t_api.StatusOK, 1), nil }
 			stub.captured = nil
 			_, _, herr := doHTTP(e)
@@ -456,6 +529,9 @@ func child(from, to int, factsPath string) {
 			st := t_api.StatusCode(c.Status)
 			stub.next = func(r *t_api.Request) (*t_api.Response, error) {
 				if c.Form == "err" {
+					if c.Shape == 1 {
+						return nil, t_api.NewError(st, nil)
+					}
 					return nil, t_api.NewError(st, fmt.Errorf("scripted"))
 				}
 				return mkResponse(r.Kind, st, c.Shape), nil
